@@ -5,7 +5,7 @@ VERIF = os.path.dirname(os.path.dirname(os.path.abspath(__file__)))
 S = "src/conductor/"
 SPECS = [
  ("C01", "enqueue-when-waiting-on-le-1", S+"execution/executor.py", "            if dep_of.waiting_on > 0:\n                continue", "            if dep_of.waiting_on > 1:\n                continue"),
- ("C01", "reset-waiting-on-skipped", S+"execution/plan.py", "            op.reset_waiting_on()", "            pass"),
+ ("C09", "reset-waiting-on-skipped-crash", S+"execution/plan.py", "            op.reset_waiting_on()", "            pass"),
  ("C02", "progress-total-counts-cached", S+"execution/executor.py", "            self._num_tasks_to_run = plan.num_tasks_to_run", "            self._num_tasks_to_run = plan.num_tasks_to_run + len(plan.cached_tasks)"),
  ("C03", "deps-succeeded-any", S+"execution/ops/operation.py", "        return all(map(lambda task: task.succeeded(), self.exe_deps))", "        return len(self.exe_deps) == 0 or any(map(lambda task: task.succeeded(), self.exe_deps))"),
  ("C03", "skipped-counts-as-succeeded", S+"execution/ops/operation.py", "            or self.state == OperationState.SUCCEEDED_CACHED", "            or self.state == OperationState.SUCCEEDED_CACHED\n            or self.state == OperationState.SKIPPED"),
@@ -13,9 +13,8 @@ SPECS = [
  ("C03", "exit-status-lost", S+"execution/executor.py", "            assert failed_task_ops[0].stored_error is not None\n            raise failed_task_ops[0].stored_error", "            assert failed_task_ops[0].stored_error is not None"),
  ("C04", "slots-le", S+"execution/executor.py", "                and len(self._inflight_ops) < self._slots", "                and len(self._inflight_ops) <= self._slots"),
  ("C04", "slot-exported-when-jobs-1", S+"execution/executor.py", "                        if self._running_parallel and self._slots > 1", "                        if self._running_parallel and self._slots >= 1"),
- ("C04", "slot-never-returned", S+"execution/executor.py", "        if handle.slot is not None:\n            self._available_slots.append(handle.slot)", "        if handle.slot is not None and not error_occurred:\n            self._available_slots.append(handle.slot)"),
+ ("C09", "slot-leak-on-failure-crash", S+"execution/executor.py", "        if handle.slot is not None:\n            self._available_slots.append(handle.slot)", "        if handle.slot is not None and not error_occurred:\n            self._available_slots.append(handle.slot)"),
  ("C05", "is-ancestor-args-swapped", S+"task_types/run.py", "            elif ctx.git.is_ancestor(\n                curr_commit.hash, candidate_ancestor_hash=version.commit_hash\n            ):", "            elif ctx.git.is_ancestor(\n                version.commit_hash, candidate_ancestor_hash=curr_commit.hash\n            ):"),
- ("C05", "closest-le", S+"task_types/run.py", "                if selected_version is None or dist < closest_distance:", "                if selected_version is None or dist <= closest_distance:"),
  ("C05", "tie-break-oldest", S+"task_types/run.py", "                    and v.timestamp > selected_version.timestamp", "                    and v.timestamp < selected_version.timestamp"),
  ("C05", "fallback-to-newest-with-foreign", S+"task_types/run.py", "        if (\n            len(null_commit_versions) == len(existing_versions)\n            and len(null_commit_versions) > 0\n        ):", "        if len(null_commit_versions) > 0:"),
  ("C05", "at-least-equal-is-older", S+"task_types/run.py", "        if self._most_relevant_version.commit_hash == at_least_commit:\n            # No need to re-run. The most relevant version matches `at_least_commit`.\n            return False\n", ""),
@@ -59,7 +58,12 @@ SPECS = [
  ("C20", "version-without-separator", S+"filename.py", "        return \"{}{}.{}\".format(", "        return \"{}{}{}\".format("),
  ("C18", "entry-named-after-identifier-path", S+"execution/ops/combine_outputs.py", "            copy_into = self._output_path / dep_id.name", "            copy_into = self._output_path / str(dep_id).replace(\"/\", \"_\").replace(\":\", \"_\")"),
  ("C18", "non-link-silently-replaced", S+"execution/ops/combine_outputs.py", "                else:\n                    # Unexpected - it should be a symlink.\n                    raise CombineOutputFileConflict(output_file=str(copy_into))", "                elif copy_into.is_file():\n                    copy_into.unlink()\n                else:\n                    raise CombineOutputFileConflict(output_file=str(copy_into))"),
- ("C06", "row-inserted-at-planning", S+"task_types/run.py", "    def create_new_version(self, ctx: \"c.Context\") -> Version:\n        self._create_new_version(ctx)\n        assert self._most_relevant_version is not None", "    def create_new_version(self, ctx: \"c.Context\") -> Version:\n        self._create_new_version(ctx)\n        assert self._most_relevant_version is not None\n        ctx.version_index.insert_output_version(self._identifier, self._most_relevant_version)"),
+ ("C06", "row-inserted-at-planning-instead-of-finish",
+  [S+"task_types/run.py", S+"execution/ops/run_task_executable.py"],
+  ["    def create_new_version(self, ctx: \"c.Context\") -> Version:\n        self._create_new_version(ctx)\n        assert self._most_relevant_version is not None",
+   "            ctx.version_index.insert_output_version(\n                self._identifier, self._version_to_record\n            )\n"],
+  ["    def create_new_version(self, ctx: \"c.Context\") -> Version:\n        self._create_new_version(ctx)\n        assert self._most_relevant_version is not None\n        ctx.version_index.insert_output_version(self._identifier, self._most_relevant_version)",
+   ""]),
 ]
 def main():
     only = set(sys.argv[1:])
@@ -71,14 +75,19 @@ def main():
             subprocess.run("git -C /repo archive HEAD src | tar -x -C %s" % d, shell=True, check=True)
             subprocess.run(["git", "init", "-q"], cwd=d, check=True)
             subprocess.run("git add -A && git -c user.name=x -c user.email=x@x commit -qm base", shell=True, cwd=d, check=True)
-            p = os.path.join(d, rel)
-            s = open(p).read()
-            if s.count(old) != 1:
-                print("SPEC DOES NOT MATCH (%d occurrences): %s %s" % (s.count(old), pid, name)); bad += 1; continue
-            open(p, "w").write(s.replace(old, new))
-            r = subprocess.run([sys.executable, "-m", "py_compile", p], capture_output=True, text=True)
-            if r.returncode != 0:
-                print("DOES NOT COMPILE: %s %s\n%s" % (pid, name, r.stderr[-300:])); bad += 1; continue
+            rels, olds, news = (rel, old, new) if isinstance(rel, list) else ([rel], [old], [new])
+            okay = True
+            for rel_, old_, new_ in zip(rels, olds, news):
+                p = os.path.join(d, rel_)
+                s = open(p).read()
+                if s.count(old_) != 1:
+                    print("SPEC DOES NOT MATCH (%d occurrences): %s %s" % (s.count(old_), pid, name)); okay = False; break
+                open(p, "w").write(s.replace(old_, new_))
+                r = subprocess.run([sys.executable, "-m", "py_compile", p], capture_output=True, text=True)
+                if r.returncode != 0:
+                    print("DOES NOT COMPILE: %s %s\n%s" % (pid, name, r.stderr[-300:])); okay = False; break
+            if not okay:
+                bad += 1; continue
             diff = subprocess.run(["git", "diff"], cwd=d, capture_output=True, text=True).stdout
             os.makedirs(os.path.join(VERIF, "mutants", pid), exist_ok=True)
             open(os.path.join(VERIF, "mutants", pid, name + ".patch"), "w").write(diff)
